@@ -284,6 +284,7 @@ theorem bub_keeps (q : Quirks) (e : Bool) : ∀ atts a i r, KeepsAll atts (bubbl
       | exact .cons ⟨rfl, rfl, fun _ => rfl, id⟩ (ih _ _ _)
       | exact .cons (Keeps.refl _) (ih _ _ _)
       | exact .cons ⟨rfl, rfl, fun _ => rfl, id⟩ (markCaught_keeps _ _)
+      | exact .cons ⟨rfl, rfl, id, fun _ => rfl⟩ (markCaught_keeps _ _)
 
 /-- an elementwise property kept by the four kinds of change `bubble` makes is kept by `bubble` -/
 theorem bub_forall (P : Attempt → Prop)
@@ -318,6 +319,7 @@ theorem bub_forall (P : Attempt → Prop)
       | exact ⟨h2 _ rfl (h1 _ _ _ hx), ih _ _ _ hr⟩
       | exact ⟨hx, ih _ _ _ hr⟩
       | exact ⟨h2 _ rfl (h1 _ _ _ hx), hc _⟩
+      | exact ⟨h3 _ (h1 _ _ _ hx), hc _⟩
 
 /-- an attempt whose results entry does not exist yet has nothing but PENDING slots; one whose entry exists has no
 cancellable slot -/
@@ -749,6 +751,9 @@ theorem continue_inv (s : Proto) (a i : Nat) (k : Kont) (h : Inv s) (hne : s.end
   | fail e hs =>
     simp only [continue_]
     exact finish_inv _ _ _ (bub_unseen _ _ _ _ _ _ h.unseen) (fun he => by simp [hne] at he)
+  | doneFail v e hs =>
+    simp only [continue_]
+    exact finish_inv _ _ _ (bub_unseen _ _ _ _ _ _ h.unseen) (fun he => by simp [hne] at he)
 
 theorem find_mem (atts : List Attempt) (a : Nat) (x : Attempt) (h : find atts a = some x) : x ∈ atts ∧ x.id = a := by
   unfold find at h
@@ -1073,6 +1078,7 @@ theorem continue_quiet_or (q : Quirks) (s : Proto) (a i : Nat) (k : Kont) :
   | caughtOn => simp [continue_, isEnd]
   | done v ups => simp only [continue_]; exact key _
   | fail e hs => simp only [continue_]; exact key _
+  | doneFail v e hs => simp only [continue_]; exact key _
 
 
 theorem quiet_filter_nil (os : List Out) (h : ∀ o ∈ os, o.quiet = true) : os.filter isEnd = [] := by
@@ -1403,6 +1409,7 @@ theorem continue_same (q : Quirks) (s : Proto) (a i : Nat) (k : Kont) : Same s (
   | caughtOn => exact ⟨Nat.le_refl _, Or.inr (upd_keeps _ _ _ (setSlot_keeps _ _))⟩
   | done v ups => simp only [continue_]; exact finish_same _ _ _ (bub_keeps _ _ _ _ _ _)
   | fail e hs => simp only [continue_]; exact finish_same _ _ _ (bub_keeps _ _ _ _ _ _)
+  | doneFail v e hs => simp only [continue_]; exact finish_same _ _ _ (bub_keeps _ _ _ _ _ _)
 
 /-- one step: the same attempts (or none), or those and a newly launched one with a fresh id -/
 inductive Evolves (s s' : Proto) : Prop where
@@ -1683,7 +1690,7 @@ theorem bub_fail_error (q : Quirks) (e : Bool) : ∀ atts a i e0 hs, ∀ b e', O
 
 /-- outputs that are not the outcome of an attempt -/
 def Out.simple : Out → Bool
-  | .succeed _ _ | .failAttempt _ _ | .aborted _ | .retry _ _ | .caughtTo _ => false
+  | .succeed _ _ | .failAttempt _ _ | .aborted _ | .retry _ _ | .caughtTo _ | .joinFailed _ _ => false
   | _ => true
 
 theorem cancelsOf_simple (x : Attempt) : ∀ o ∈ cancelsOf x, o.simple = true := by
@@ -1760,6 +1767,16 @@ theorem continue_walk (q : Quirks) (s0 s : Proto) (a i : Nat) (k : Kont) (hk : K
   | fail e hs =>
     right
     refine ⟨s, a, i, .fail e hs, hk, hf, rfl, ?_⟩
+    intro o ho
+    simp only [continue_, List.mem_cons] at ho
+    rcases ho with rfl | ho
+    · exact Or.inl rfl
+    · rcases finish_mem _ _ _ o ho with h | h
+      · exact Or.inr h
+      · exact Or.inl h
+  | doneFail v e hs =>
+    right
+    refine ⟨s, a, i, .doneFail v e hs, hk, hf, rfl, ?_⟩
     intro o ho
     simp only [continue_, List.mem_cons] at ho
     rcases ho with rfl | ho
@@ -2440,6 +2457,25 @@ theorem bub_fail_nosucceed (q : Quirks) (e : Bool) : ∀ atts a i e0 hs, ∀ b v
          · cases ho
          · first | (cases ho; done) | exact ih _ _ _ _ _ _ ho)
 
+/-- nor does the walk of a join that completes and then fails -/
+theorem bub_doneFail_nosucceed (q : Quirks) (e : Bool) : ∀ atts a i v e0 hs, ∀ b vs,
+    Out.succeed b vs ∉ (bubble q e atts a i (.doneFail v e0 hs)).outs := by
+  intro atts
+  induction atts with
+  | nil => intro a i v e0 hs b vs ho; simp [bubble] at ho
+  | cons x rest ih =>
+    intro a i v e0 hs b vs
+    simp only [bubble]
+    repeat' split
+    all_goals (simp only [Walk.under, List.mem_append, List.mem_cons, List.not_mem_nil, or_false, List.nil_append])
+    all_goals first
+      | exact ih _ _ _ _ _ _ _
+      | (intro ho; cases ho; done)
+      | (intro ho
+         rcases ho with ho | ho
+         · cases ho
+         · first | (cases ho; done) | exact bub_fail_nosucceed _ _ _ _ _ _ _ _ _ ho)
+
 /-- within one step an attempt does not both fail and hand over -/
 theorem step_fail_excludes_succeed (q : Quirks) (s : Proto) (inp : Inp) (a b : Nat) (e : Err) (vs : List Nat)
     (h : Out.failAttempt a e ∈ (step q s inp).2) : Out.succeed b vs ∉ (step q s inp).2 := by
@@ -2457,6 +2493,7 @@ theorem step_fail_excludes_succeed (q : Quirks) (s : Proto) (inp : Inp) (a b : N
     cases r with
     | done v ups => exact bub_done_nofail _ _ _ _ _ _ _ _ _ h1
     | fail e0 hs0 => exact bub_fail_nosucceed _ _ _ _ _ _ _ _ _ h2
+    | doneFail v e0 hs0 => exact bub_doneFail_nosucceed _ _ _ _ _ _ _ _ _ _ h2
 
 
 /-- in the output sequence of any run no hand-over of attempt `a` comes after a failure of `a` -/
@@ -2553,6 +2590,7 @@ theorem ts_continue (q : Quirks) (s : Proto) (a i : Nat) (k : Kont) (h : TermSee
   | caughtOn => exact upd_forall TermSeenOK _ _ _ (fun x hx => ts_setSlot _ _ x hx) h
   | done v ups => simp only [continue_]; exact ts_finish _ _ _ (ts_bubble _ _ _ _ _ _ h)
   | fail e hs => simp only [continue_]; exact ts_finish _ _ _ (ts_bubble _ _ _ _ _ _ h)
+  | doneFail v e hs => simp only [continue_]; exact ts_finish _ _ _ (ts_bubble _ _ _ _ _ _ h)
 
 theorem ts_step (q : Quirks) (s : Proto) (inp : Inp) (h : TermSeen s.atts) : TermSeen (step q s inp).1.atts := by
   have hcons : ∀ (att : Attempt) (l : List Attempt), att.terminated = false → TermSeen l → TermSeen (att :: l) := by
@@ -2730,6 +2768,33 @@ theorem bub_no_fail_tt (q : Quirks) (e : Bool) : ∀ atts a i r b, Out.failAttem
       | (intro ho; injection ho with h1 h2; subst h2; simp_all)
 
 
+/-- the walk of a join that completes and then fails, if it reports a failed attempt, ends in `checkPending` too -/
+theorem bub_doneFail_flags (q : Quirks) (e : Bool) : ∀ atts a i v e0 hs b e', Out.failAttempt b e' ∈ (bubble q e atts a i (.doneFail v e0 hs)).outs →
+    (bubble q e atts a i (.doneFail v e0 hs)).cpr = true ∨ (bubble q e atts a i (.doneFail v e0 hs)).endNow.isSome = true := by
+  intro atts
+  induction atts with
+  | nil => intro a i v e0 hs b e' ho; simp [bubble] at ho
+  | cons x rest ih =>
+    intro a i v e0 hs b e'
+    simp only [bubble]
+    repeat' split
+    all_goals (simp only [Walk.under, List.mem_append, List.mem_cons, List.not_mem_nil, or_false, List.nil_append])
+    all_goals first
+      | exact ih _ _ _ _ _ _ _
+      | (intro ho; cases ho; done)
+      | (intro _; simp; done)
+      | (intro ho
+         rcases ho with ho | ho
+         · cases ho
+         · first
+             | (cases ho; done)
+             | (have he := bub_fail_error _ _ _ _ _ _ _ _ _ ho
+                have hne : e0 ≠ Err.taskTerminated := by
+                  intro hc
+                  rw [he, hc] at ho
+                  exact bub_no_fail_tt _ _ _ _ _ _ _ ho
+                exact bub_genuine_flags _ _ _ _ _ _ _ hne))
+
 /-- the direct law, in the model: in the repaired protocol the step in which an attempt fails leaves no task or wait
 outstanding in any attempt that is dead — the failed attempt itself and every attempt nested, at any depth, in its branches -/
 theorem step_failure_cancels_nested (s : Proto) (inp : Inp) (a : Nat) (e : Err) (hts : TermSeen s.atts)
@@ -2756,6 +2821,15 @@ theorem step_failure_cancels_nested (s : Proto) (inp : Inp) (a : Nat) (e : Err) 
       unfold finish at hres ⊢
       have hc : ((bubble Quirks.none s1.ended.isSome s1.atts b i (Res.fail e0 hs)).cpr ||
           (bubble Quirks.none s1.ended.isSome s1.atts b i (Res.fail e0 hs)).endNow.isSome) = true := by
+        rcases hfl with x | x <;> simp [x]
+      simp only [hc, if_true] at hres ⊢
+      exact cp_cancels_dead _ hres
+    | doneFail v e0 hs =>
+      have hfl := bub_doneFail_flags _ _ _ _ _ _ _ _ _ _ hin
+      rw [heq] at hres ⊢
+      unfold finish at hres ⊢
+      have hc : ((bubble Quirks.none s1.ended.isSome s1.atts b i (Res.doneFail v e0 hs)).cpr ||
+          (bubble Quirks.none s1.ended.isSome s1.atts b i (Res.doneFail v e0 hs)).endNow.isSome) = true := by
         rcases hfl with x | x <;> simp [x]
       simp only [hc, if_true] at hres ⊢
       exact cp_cancels_dead _ hres
